@@ -50,6 +50,7 @@ type Obligation struct {
 	Ms      int64
 	Model   string
 	Script  string
+	Lite    string // the same script without `uses` lemmas and recursive spec-function definitions ("" if identical)
 	ObsVars []ObsVar // terms whose model values are wanted for replay
 }
 
